@@ -11,24 +11,34 @@ import (
 	"gitlab.com/gomidi/midi/v2/internal/zzverif"
 )
 
-// RunReplay is called by the generated TestVerifReplay.
+// RunReplay is called by the generated TestVerifReplay. $VERIF_REPLAY names a file holding one vector or a list.
 func RunReplay(t *testing.T, hs map[string]func()) {
-	var vec zzverif.Vector
 	p := os.Getenv("VERIF_REPLAY")
 	b, err := os.ReadFile(p)
 	if err != nil {
 		fmt.Printf("VERIF-RESULT: error %v\n", err)
 		t.Fatal(err)
 	}
-	if err := json.Unmarshal(b, &vec); err != nil {
-		fmt.Printf("VERIF-RESULT: error %v\n", err)
-		t.Fatal(err)
+	var vecs []zzverif.Vector
+	if err := json.Unmarshal(b, &vecs); err != nil {
+		var one zzverif.Vector
+		if err := json.Unmarshal(b, &one); err != nil {
+			fmt.Printf("VERIF-RESULT: error %v\n", err)
+			t.Fatal(err)
+		}
+		vecs = []zzverif.Vector{one}
 	}
+	for _, vec := range vecs {
+		runOne(t, hs, vec)
+	}
+}
+
+func runOne(t *testing.T, hs map[string]func(), vec zzverif.Vector) {
 	zzverif.SetVector(vec)
 	h, ok := hs[vec.Harness]
 	if !ok {
 		fmt.Printf("VERIF-RESULT: error unknown harness %q\n", vec.Harness)
-		t.Fatalf("unknown harness")
+		return
 	}
 	defer func() {
 		r := recover()
